@@ -366,6 +366,7 @@ def worker(task, emit=None, skip=(), refute=()):
         light = tuple(p for j, p in enumerate(o.pc) if j < n_ax or not has_quantifier([p]))
         goal_q = has_quantifier([o.goal])
         r, dt, model, s = "unknown", 0.0, None, None
+        stage = None
         stages = [("full", 4000), ("light", 10000), ("light-tracked", 10000)] if goal_q else [("light", 10000), ("light-tracked", 10000), ("full", 4000)]
         if i in refute:
             # a proof attempt of this obligation was killed (solver ignored its time-out, typical for
@@ -380,11 +381,13 @@ def worker(task, emit=None, skip=(), refute=()):
                 dt += dt2
                 if r2 == "unsat":
                     r = "unsat"
+                    stage = which
                     break
             else:
                 r, dt2, model, s = check(o.pc, o.goal, min(budget, timeout_ms))
                 dt += dt2
                 if r != "unknown":
+                    stage = which
                     break
         if s is None:
             r0, dt2, model0, s = check(o.pc, o.goal, 1) if r == "unsat" else (r, 0, None, None)
@@ -401,10 +404,12 @@ def worker(task, emit=None, skip=(), refute=()):
             dt += dt3
             if r3 == "unsat":
                 r, backend = r3, backend3
+                stage = "external-quick"
         if r == "unknown":
             # (a) look for a small-scope counterexample (quantifiers expanded, recursion unrolled,
             # so a model is real); a ladder of scopes: the small one answers in milliseconds
             for K in (1, COVER_K, SCOPE_K):
+                kb = {1: 10000, COVER_K: 15000}.get(K, 30000)
                 try:
                     if K not in cexs:
                         g = generate(mods, kind, key, K)
@@ -416,9 +421,9 @@ def worker(task, emit=None, skip=(), refute=()):
                     # model-based instantiation decides them; the model is validated below and replayed
                     qf = ground_axioms(tuple(co.pc) + tuple(cexs[K][5]), co.goal)
                     if has_quantifier(qf):
-                        r2, dt2, model2, _ = check(tuple(qf), co.goal, min(timeout_ms, 30000))
+                        r2, dt2, model2, _ = check(tuple(qf), co.goal, min(timeout_ms, kb))
                     else:
-                        r2, dt2, model2, _ = check_lazy(tuple(qf), co.goal, min(timeout_ms, 30000))
+                        r2, dt2, model2, _ = check_lazy(tuple(qf), co.goal, min(timeout_ms, kb))
                     if r2 == "sat" and not model_ok(model2, qf, co.goal, [p for p in co.pc if z3.is_quantifier(p)]):
                         r2 = "unknown"
                         rec["small_scope_note"] = "model rejected: violates a quantified type axiom or does not falsify the goal"
@@ -440,6 +445,7 @@ def worker(task, emit=None, skip=(), refute=()):
                         dt += dt3
                         if r3 == "unsat":
                             r = "unsat"
+                            stage = "complete-unrolling"
                             backend = f"z3-5.1.0 (complete unrolling, K={K})"
                             break
                 except Exception as e:
@@ -447,10 +453,14 @@ def worker(task, emit=None, skip=(), refute=()):
         if r == "unknown" and long_pending:
             r, dt2, model, s = check(o.pc, o.goal, timeout_ms)
             dt += dt2
+            if r != "unknown":
+                stage = "full-long"
             if r == "sat" and has_quantifier(list(o.pc) + [o.goal]):
                 r, model = "unknown", None
-        if r == "unknown" and i not in refute:
-            # (b) second attempt with a doubled budget and another seed, then other solvers
+        if r == "unknown" and i not in refute and os.environ.get("PYVC_TIER", "quick") == "thorough":
+            # (b) thorough tier only: second attempt with a doubled budget and another seed, then other
+            # solvers (on the unchanged tree every obligation is discharged by the stages above; these
+            # late stages only prolong an `unknown`)
             t0 = time.time()
             r2, _, _, _ = check(light, o.goal, 2 * timeout_ms)
             if r2 != "unsat":
@@ -465,12 +475,14 @@ def worker(task, emit=None, skip=(), refute=()):
             dt += time.time() - t0
             if r2 == "unsat":
                 r = r2
+                stage = "doubled"
             else:
                 r3, backend3, dt3 = fallback(s, o.name, budget_s=max(20, timeout_ms // 1000))
                 dt += dt3
                 if r3 == "unsat":
                     r, backend = r3, backend3
-        rec.update(result=r, s=round(dt, 3), backend=backend)
+                    stage = "external-long"
+        rec.update(result=r, s=round(dt, 3), backend=backend, stage=stage)
         if r == "sat" and "model" not in rec:
             rec["model"] = extract_inputs(ctx, model, entry)
             rec["have_model"] = model is not None
